@@ -514,6 +514,8 @@ class Tr:
                 v = self.coerce(a, ta, self.ret, 'as the result')
                 return 'Ok (%s, %s)' % (env[st][0], v) if st else 'Ok %s' % v
             if s.value is None:
+                if self.ret == 'unit':
+                    return 'Ok (%s, tt)' % env[st][0] if st else 'Ok tt'
                 return result('None', 'none')
             return self.expr(s.value, env, result)
         if isinstance(s, ast.Raise):
@@ -592,6 +594,14 @@ class Tr:
                 env2[state] = (st2, env[state][1])
                 return '(let %s := (%s ++ [%s]) in %s)' % (st2, env[state][0], self.coerce(a, ta, elt), nxt(env2))
             return self.expr(s.value.args[0], env, appended)
+        if isinstance(s, ast.Assign) and len(s.targets) == 1 and isinstance(s.targets[0], ast.Attribute) \
+                and ast.unparse(s.targets[0]) in self.spec.get('stores', {}):
+            # a constructor storing its (validated) argument in a field: the translation is the validation; the stored
+            # value must be the argument the spec names, unchanged
+            want = self.spec['stores'][ast.unparse(s.targets[0])]
+            if not (isinstance(s.value, ast.Name) and s.value.id == want):
+                raise Unsupported('%s stores %s, the spec expects the argument %s' % (ast.unparse(s.targets[0]), ast.unparse(s.value), want))
+            return nxt(env)
         if isinstance(s, (ast.Assign, ast.AnnAssign)):
             tgt = s.targets[0] if isinstance(s, ast.Assign) else s.target
             if (isinstance(s, ast.Assign) and len(s.targets) != 1) or not isinstance(tgt, ast.Name) or s.value is None:
